@@ -33,9 +33,11 @@ func init() {
 		Rules: []Rule{
 			{ID: "R11.1", Configs: "all", Run: ruleR11_1},
 			{ID: "R11.2", Configs: "all", Run: ruleR11_2},
+			{ID: "R11.3", Configs: "all", Run: ruleR11_3},
+			{ID: "R11.4", Configs: "all", Run: ruleR11_4},
 		},
 		Explanation: "Decides that the Reader never asks its source for more than it needs and never withholds what it has: (R11.1) in the inflater every Peek argument is a constant <= 1, state.bitsLen/8 + 1 (one byte beyond those the bit buffer still holds) or the reader's own Buffered() count, and no io.ReadFull/ReadAtLeast/ReadAll is applied to the source; in gzip/zlib every io.ReadFull target is a fixed-size structure or a buffer whose length was just read from the header; " +
-			"(R11.2) decoded data is handed out before the stored error is replayed, and io.EOF is produced by step only when no decoded data is pending, so a container Reader is never sent to read a trailer while payload is still undelivered.",
+			"(R11.2) decoded data is handed out before the stored error is replayed, and io.EOF is produced by step only when no decoded data is pending, so a container Reader is never sent to read a trailer while payload is still undelivered; (R11.3) every Peek of the inflater that can wait for input is behind the edge phase != phaseStreamEnd (in its function or at every call site), so after the final block the end of the stream is reported without another byte from the source; (R11.4) from every call that decodes into the history buffer, every path to a return passes the store to writePos, so whatever was decoded - also by earlier blocks of the same step - is published even when a later block header is invalid or incomplete.",
 		NotDecided: []string{
 			"that the decode loops make progress on every prefix ending at a flush point (runtime behaviour of the rollback logic)",
 			"blocking behaviour of bufio.Reader.Peek itself (trusted: returns as soon as n bytes are buffered)",
@@ -303,20 +305,30 @@ func ruleR05_1(p *Program, r *Report) {
 }
 
 func ruleR05_2(p *Program, r *Report) {
-	r.Expect("R05.2", 3)
+	r.Expect("R05.2", 2)
 	fn := p.Method(flateRel, "decompressor", "step")
 	if fn == nil {
 		r.Undecided("R05.2", "anchor:step", "-", "decompressor.step exists", "not found")
 		return
 	}
 	want := map[string]int64{".peekSize": 1, "len(.state.input)": -1, "(.state.bitsLen)/8": -1}
-	lab := newLabeler()
 	nd := 0
-	for _, c := range allCalls(fn) {
-		f := c.Common().StaticCallee()
-		if isMethodOf(f, "bufio", "Reader", "Discard") {
+	// every Discard in a method of the decompressor (step itself or a helper it was split into)
+	var methods []*ssa.Function
+	for _, g := range p.Funcs() {
+		if g.Signature.Recv() != nil && derefNamed(g.Signature.Recv().Type()) == derefNamed(fn.Signature.Recv().Type()) {
+			methods = append(methods, g)
+		}
+	}
+	for _, g := range methods {
+		lab := newLabeler()
+		for _, c := range allCalls(g) {
+			f := c.Common().StaticCallee()
+			if !isMethodOf(f, "bufio", "Reader", "Discard") {
+				continue
+			}
 			nd++
-			key := shortFn(fn) + "|" + lab.get("Discard")
+			key := shortFn(g) + "|" + lab.get("Discard")
 			arg := c.Common().Args[1]
 			l := linearize(arg)
 			if !l.ok {
@@ -550,6 +562,120 @@ func dependsOnCall(v ssa.Value, name string) bool {
 		return false
 	}
 	return walk(v)
+}
+
+// R11.3: once the final block has been decoded (phase == phaseStreamEnd) nothing more is needed
+// from the source: no call in the inflater that can wait for input (a Peek that is not
+// Peek(Buffered())) is reachable when its function - or, failing that, each caller at the call
+// site - is entered with phase == phaseStreamEnd (correlated-branch search, AssumeReach).
+func ruleR11_3(p *Program, r *Report) {
+	r.Expect("R11.3", 1)
+	end, okEnd := constOf(p, flateRel, "phaseStreamEnd")
+	if !okEnd {
+		r.Undecided("R11.3", "anchors", "-", "the constant phaseStreamEnd exists", "not found")
+		return
+	}
+	var reach func(fn *ssa.Function, at ssa.Instruction, depth int) (bool, string)
+	reach = func(fn *ssa.Function, at ssa.Instruction, depth int) (bool, string) {
+		if !p.AssumeReach(fn, at, ".phase", end) {
+			return false, ""
+		}
+		if depth >= 3 {
+			return true, shortFn(fn)
+		}
+		// reachable inside fn: is fn itself ever entered in that phase?
+		sites := 0
+		for _, g := range p.Funcs() {
+			for _, cc := range allCalls(g) {
+				cs, _ := p.Callees(cc)
+				for _, cal := range cs {
+					if cal != fn {
+						continue
+					}
+					sites++
+					if yes, via := reach(g, cc, depth+1); yes {
+						return true, via + " -> " + shortFn(fn)
+					}
+				}
+			}
+		}
+		if sites == 0 {
+			return true, shortFn(fn) // an entry point: callable in any phase
+		}
+		return false, ""
+	}
+	sp := p.Pkg(flateRel)
+	for _, fn := range p.Funcs() {
+		if fn.Pkg != sp {
+			continue
+		}
+		lab := newLabeler()
+		for _, c := range allCalls(fn) {
+			f := c.Common().StaticCallee()
+			if !isMethodOf(f, "bufio", "Reader", "Peek") {
+				continue
+			}
+			key := shortFn(fn) + "|" + lab.get(calleeLabel(c))
+			if k, isK := constInt(c.Common().Args[1]); (isK && k <= 0) || peekBuffered(fn, c) {
+				continue
+			}
+			yes, via := reach(fn, c, 0)
+			r.Check(!yes, "R11.3", key, p.InstrPos(c), "the inflater does not wait for input once the final block has been decoded", "this Peek can run with phase == phaseStreamEnd (entered through "+via+"): after the last block the Reader waits for a byte it does not need before reporting io.EOF, so a source that delivers the complete stream and then blocks (or fails) never sees the end reported")
+		}
+	}
+}
+
+// R11.4: what a decode call has produced is published: in every method of the decompressor, from
+// each call that decodes into the history buffer no Return is reachable without passing the store
+// to .writePos (the only thing Read looks at to hand data out).
+func ruleR11_4(p *Program, r *Report) {
+	r.Expect("R11.4", 2)
+	dn := p.Named(flateRel, "decompressor")
+	if dn == nil {
+		r.Undecided("R11.4", "anchors", "-", "type decompressor exists", "not found")
+		return
+	}
+	for _, fn := range p.Funcs() {
+		if fn.Signature.Recv() == nil || derefNamed(fn.Signature.Recv().Type()) != dn {
+			continue
+		}
+		lab := newLabeler()
+		for _, c := range allCalls(fn) {
+			g := c.Common().StaticCallee()
+			if g == nil || !p.InRepo(g) || g.Blocks == nil {
+				continue
+			}
+			intoHistory := false
+			for _, a := range c.Common().Args {
+				for _, leaf := range p.valueSources(a) {
+					if sl, ok := leaf.(*ssa.Slice); ok {
+						if _, sel := accessPath(sl.X); sel == ".historyBuffer" {
+							intoHistory = true
+						}
+					}
+				}
+			}
+			if !intoHistory {
+				continue
+			}
+			key := shortFn(fn) + "|" + lab.get(calleeLabel(c))
+			found, hit, path := PathQuery{Start: c,
+				Target: func(x ssa.Instruction) bool { _, ok := x.(*ssa.Return); return ok },
+				Barrier: func(x ssa.Instruction) bool {
+					st, ok := x.(*ssa.Store)
+					if !ok {
+						return false
+					}
+					_, sel := accessPath(st.Addr)
+					return sel == ".writePos"
+				}}.Find(fn)
+			why := ""
+			if found {
+				why = "the return at " + p.InstrPos(hit) + " is reachable (blocks " + fmtInts(path) + ") without storing .writePos: bytes already decoded by this call, or by an earlier block in the same step, are never handed out"
+			}
+			r.Check(!found, "R11.4", key, p.InstrPos(c), "output decoded by "+calleeLabel(c)+" is published (.writePos) on every path to a return", why)
+		}
+	}
 }
 
 func ruleR11_2(p *Program, r *Report) {
@@ -942,6 +1068,9 @@ func ruleR09_3(p *Program, r *Report) {
 		// the trigger: the If whose edges lead to returns with different constant trigger results
 		good, seen := false, false
 		why := "no comparison of the cursor with the copy bound decides the trigger"
+		// candidate comparisons: (a) the If whose edges lead to returns with different constant
+		// trigger results, (b) a comparison returned directly as the trigger (`return n, cursor == bound`)
+		var cands []*ssa.BinOp
 		for _, b := range fn.Blocks {
 			iff, ok := b.Instrs[len(b.Instrs)-1].(*ssa.If)
 			if !ok {
@@ -951,7 +1080,6 @@ func ruleR09_3(p *Program, r *Report) {
 			if !ok {
 				continue
 			}
-			// does this branch decide the trigger? one side returns true, the other false
 			trig := map[bool]bool{}
 			for k, s := range b.Succs {
 				for _, in := range s.Instrs {
@@ -965,6 +1093,18 @@ func ruleR09_3(p *Program, r *Report) {
 			if len(trig) == 0 {
 				continue
 			}
+			cands = append(cands, bo)
+		}
+		for _, b := range fn.Blocks {
+			for _, in := range b.Instrs {
+				if ret, ok := in.(*ssa.Return); ok && len(ret.Results) == 2 {
+					if bo, ok := ret.Results[1].(*ssa.BinOp); ok {
+						cands = append(cands, bo)
+					}
+				}
+			}
+		}
+		for _, bo := range cands {
 			// normalise: cursor (op) bound  <=>  lhs - rhs (op) 0
 			l := linearize(bo.X)
 			rr := linearize(bo.Y)
